@@ -199,6 +199,8 @@ def _(self: Ref['mqtt.client.pubsubs.MQTTProtocol'], reason: Any):
     ensures(implies(self._cleanStart, all_failed(W(self), reason) and all_failed(R(self), reason) and dq_len(Q(self)) == 0))
     ensures(implies(not self._cleanStart, keys_kept(W(self)) and keys_kept(R(self))
                     and dq_head(Q(self)) == old(dq_head(Q(self))) and dq_tail(Q(self)) == old(dq_tail(Q(self)))))
+    # what is left behind is what buildProtocol requires of a session at rest (lemma rest_after_loss, specs/factory.py)
+    ensures(lost_state(self))
     # ... and only then is the onDisconnection notification scheduled, once, with the reason
     ensures(implies(is_func(self.onDisconnection),
                     isa(last_alloc(), 'DelayedCall') and is_fresh(last_alloc()) and last_alloc().t_status == 0
